@@ -25,6 +25,12 @@
 (***************************************************************************)
 EXTENDS Ids
 
+\* cfg.smod = 0: the slot version has the full width of the receipt's version (the real code).
+\* cfg.smod = m > 0: WHAT-IF model of a slot field narrower than the receipt's version (stored and compared
+\* modulo m); used to generate the behaviours in which such a field would make a stale receipt match again
+\* (they are replayed into the real code, where the receipt must not match).
+Narrow(v) == IF cfg.smod > 0 THEN v % cfg.smod ELSE v
+
 BoxOps == {"em", "tk", "tr", "fr"}
 
 \* the slot of `id` has been handed out again with a later version
@@ -74,7 +80,7 @@ BCall(t) ==
 \* emplace: slot.version.store(id.version, relaxed), then the item is constructed (no atomic operation)
 EVStore(t, M(_)) ==
   /\ pc[t] = "e_vstore"
-  /\ DoStore(t, SVer(L[t].res.value), L[t].res.version, "box_version_store", M)
+  /\ DoStore(t, SVer(L[t].res.value), Narrow(L[t].res.version), "box_version_store", M)
   /\ H' = [H EXCEPT !.slotItem[L[t].res.value] = L[t].item]
   /\ Goto(t, "ret")
   /\ UNCHANGED <<cfg, L>>
@@ -83,7 +89,7 @@ EVStore(t, M(_)) ==
 TCas(t, M(_)) ==
   /\ pc[t] = "t_cas"
   /\ LET id == L[t].bid
-     IN DoCas(t, SVer(id.value), id.version, id.version + 1, "box_take_cas", M,
+     IN DoCas(t, SVer(id.value), Narrow(id.version), Narrow(id.version + 1), "box_take_cas", M,
               LAMBDA ok, old :
                 IF ok
                 THEN LET item == H.slotItem[id.value]
